@@ -89,7 +89,7 @@ def part_a(chk, asan, quick):
 def part_b(chk, asan, quick):
     exe = os.path.join(chk.scratch, "vercheck")
     chk.cc(exe, [os.path.join(core.VERIF, "drivers", "vercheck.c")], asan,
-           extra=["-L", asan.libdir, "-lovni", "-Wl,-rpath," + asan.libdir])
+           extra=["-L", asan.libdir, "-lovni", "-lpthread", "-Wl,-rpath," + asan.libdir])
     r = core.run_retry([exe, "0.0.0"], timeout=20)
     # library version from the generated header
     hv = open(os.path.join(asan.incdir, "ovni.h")).read()
@@ -125,7 +125,48 @@ def part_b(chk, asan, quick):
             chk.report("libovni-version-check:%s" % ("accepts-incompatible" if accepted else "rejects-compatible"),
                        "ovni_version_check_str(%r) %s with library %d.%d.%d" % ((s, "accepted" if accepted else "refused") + lib),
                        {"want": s, "lib": lib})
-    return n, lib
+    # the same checks from several threads at once (runtime workers starting
+    # together): accepted versions stay accepted, a refused one stays refused
+    good = [s for s, exp in cases if exp][:6]
+    bad = [s for s, exp in cases if not exp and parse_ok(s) not in (None, "unspecified")][:4]
+    runs = []
+    for k in range(4 if quick else 40):
+        runs.append((8, 4000 if quick else 20000, "-", good))
+        runs.append((rng_threads(k), 300, bad[k % len(bad)], good))
+
+    def threaded(a):
+        nth, it, refuse, good_ = a
+        return a, core.run_retry([exe, "-t", str(nth), str(it), refuse] + good_, timeout=300)
+    nthr = 0
+    for (nth, it, refuse, good_), r in core.pmap(threaded, runs):
+        if r.timeout:
+            chk.note_inconclusive("threaded version check timeout"); continue
+        nthr += 1
+        if r.sanitizer:
+            chk.report("libovni-version-check:threads:" + core.sanitizer_kind(r.err), "sanitizer report in concurrent checks",
+                       r.brief()); continue
+        if refuse == "-":
+            if not (r.rc == 0 and "ACCEPTED-ALL" in r.out):
+                chk.report("libovni-version-check:threads:rejects-compatible",
+                           "%d threads checking the accepted versions %s at the same time: rc=%s sig=%s %s"
+                           % (nth, good_, r.rc, r.sig, r.err.strip().split("\n")[-1][:200]), r.brief())
+        else:
+            if "ACCEPTED-INCOMPATIBLE" in r.out:
+                chk.report("libovni-version-check:threads:accepts-incompatible",
+                           "%r accepted while other threads were checking accepted versions (library %d.%d.%d)"
+                           % ((refuse,) + lib), r.brief())
+            elif r.sig != 6:
+                chk.report("libovni-version-check:threads:odd-exit", "rc=%s sig=%s" % (r.rc, r.sig), r.brief())
+            elif refuse not in r.err:
+                # the process was stopped, but by a refusal of one of the accepted versions
+                chk.report("libovni-version-check:threads:rejects-compatible",
+                           "concurrent checks: the library refused something else than %r: %s"
+                           % (refuse, r.err.strip().split("\n")[-1][:200]), r.brief())
+    return n + nthr, lib
+
+
+def rng_threads(k):
+    return [2, 4, 8, 16][k % 4]
 
 
 def enabled_models(stderr):
